@@ -2827,7 +2827,9 @@ class BipartiteGraphEmbed(Decomposition):
         self._check_p0(A)
         self.mean_photon_per_mode = mean_photon_per_mode
         self.tol = tol
-        self.identity = np.all(np.abs(A - np.identity(len(A))) < _decomposition_merge_tol)
+        # an adjacency matrix is never the trivial operation: edge weights equal to the
+        # identity matrix describe a perfect matching, not "do nothing"
+        self.identity = False
         self.drop_identity = drop_identity
 
         if edges:
